@@ -47,7 +47,7 @@ macro_rules! viol {
     };
 }
 
-fn check<'m, M, const P: usize>(m: &'m M, syms: &[M::Symbol], p_raw: &[f64], ctx: &mut Ctx) -> Result<(), Violation>
+fn check<'m, M, const P: usize>(m: &'m M, holder: &'m &'m M, syms: &[M::Symbol], p_raw: &[f64], ctx: &mut Ctx) -> Result<(), Violation>
 where
     M: IterableEntropyModel<'m, P> + EncoderModel<P>,
     M::Probability: Into<f64>,
@@ -94,6 +94,41 @@ where
     } else {
         ctx.stats.hit("probe-reference-with-zeros");
     }
+    // the same diagnostics requested through a reference type (`Self = &M`), which is how
+    // generic code that takes `impl IterableEntropyModel` by value is usually instantiated
+    {
+        fn by_ref<'m, R, const P: usize>(r: &'m R, p: &[f64]) -> (f64, f64, f64, f64, f64)
+        where
+            R: IterableEntropyModel<'m, P>,
+            R::Probability: Into<f64>,
+        {
+            (
+                r.entropy_base2(),
+                r.cross_entropy_base2(p.iter().cloned()),
+                r.reverse_cross_entropy_base2(p.iter().cloned()),
+                r.kl_divergence_base2(p.iter().cloned()),
+                r.reverse_kl_divergence_base2(p.iter().cloned()),
+            )
+        }
+        let (e2, c2, rc2, k2, rk2) = by_ref::<&'m M, P>(holder, &p);
+        if !close(e2, entropy) {
+            viol!(ctx, "diag-entropy", "by reference: entropy_base2()={} textbook={}", e2, entropy);
+        }
+        if !close(c2, cross) {
+            viol!(ctx, "diag-cross-entropy", "by reference: cross_entropy_base2()={} textbook={}", c2, cross);
+        }
+        if !close(k2, kl) {
+            viol!(ctx, "diag-kl", "by reference: kl_divergence_base2()={} textbook={}", k2, kl);
+        }
+        if p.iter().all(|x| *x > 0.0) {
+            if !close(rc2, rcross) {
+                viol!(ctx, "diag-reverse-cross-entropy", "by reference: reverse_cross_entropy_base2()={} textbook={}", rc2, rcross);
+            }
+            if !close(rk2, rkl) {
+                viol!(ctx, "diag-reverse-kl", "by reference: reverse_kl_divergence_base2()={} textbook={}", rk2, rkl);
+            }
+        }
+    }
     for (i, (_, cf, pf)) in m.floating_point_symbol_table::<f64>().enumerate() {
         if !close(cf, table[i].0 / whole) || !close(pf, q[i]) {
             viol!(ctx, "diag-float-table", "entry {}: ({}, {}) expected ({}, {})", i, cf, pf, table[i].0 / whole, q[i]);
@@ -116,14 +151,14 @@ macro_rules! run_pp {
             0 => {
                 let m = UniformModel::<$Prob, $P>::new(n);
                 let syms: Vec<usize> = (0..n).collect();
-                check::<_, $P>(&m, &syms, &t.p, $ctx)
+                { let mr = &m; check::<_, $P>(&m, &mr, &syms, &t.p, $ctx) }
             }
             1 => {
                 let w: Vec<f64> = (0..n).map(|i| t.weights.get(i).cloned().unwrap_or(1.0).abs() + 1e-9).collect();
                 match ContiguousCategoricalEntropyModel::<$Prob, Vec<$Prob>, $P>::from_floating_point_probabilities_fast(&w, None) {
                     Ok(m) => {
                         let syms: Vec<usize> = (0..n).collect();
-                        check::<_, $P>(&m, &syms, &t.p, $ctx)
+                        { let mr = &m; check::<_, $P>(&m, &mr, &syms, &t.p, $ctx) }
                     }
                     Err(()) => Ok(()),
                 }
@@ -132,7 +167,7 @@ macro_rules! run_pp {
                 let hi = (n as i32 - 1).max(1);
                 let m = LeakyQuantizer::<f64, i32, $Prob, $P>::new(0..=hi).quantize(Gaussian::new(t.mean, t.std.max(1e-3)));
                 let syms: Vec<i32> = (0..=hi).collect();
-                check::<_, $P>(&m, &syms, &t.p, $ctx)
+                { let mr = &m; check::<_, $P>(&m, &mr, &syms, &t.p, $ctx) }
             }
         }
     }};
